@@ -74,9 +74,9 @@ def gen_instance(rng, graph=None, max_comps=6, max_agents=4, tiny=False, asymmet
         elif capkind == "exact":
             cap = max(1, (total + na - 1) // na + rng.choice([0, 1]))
         elif capkind == "small":
-            cap = rng.choice([1, 2, 3])
+            cap = rng.choice([0, 1, 2, 3])
         else:
-            cap = rng.choice([2, 5, total, total + 10])
+            cap = rng.choice([0, 2, 5, total, total + 10])
         dh = 0 if zero_mode == "default0" else rng.choice([1, 2, 5])
         hc = {}
         for n in names:
@@ -100,6 +100,10 @@ def gen_instance(rng, graph=None, max_comps=6, max_agents=4, tiny=False, asymmet
     if rng.random() < 0.35 and names:
         for n in rng.sample(names, min(len(names), rng.randint(1, 2))):
             hints["must_host"].setdefault(rng.choice(agents), []).append(n)
+    zero_cap = [d["name"] for d in adefs if d["capacity"] == 0]
+    if zero_cap and names and rng.random() < 0.5:
+        # a hint asking an agent without any capacity to host a computation (impossible unless the footprint is 0)
+        hints["must_host"].setdefault(rng.choice(zero_cap), []).append(rng.choice(names))
     if graph == "factor_graph" and case["constraints"] and rng.random() < secp_hint_p:
         # SECP-like "model" hint: a factor hosted with one of the variables of its scope
         c = rng.choice(case["constraints"])
